@@ -1194,6 +1194,10 @@ func (e *Exec) WBLOnlySamples() map[string][]int64 {
 }
 
 // IsMaybeOOO reports whether the model classified the accepted sample as (possibly) out-of-order.
+// IsInOrderSure reports whether the sample was newer than everything its series had been given
+// before when it was appended (in-order for its series, whatever IsMaybeOOO says).
+func (e *Exec) IsInOrderSure(k string, t int64) bool { return e.inOrderSure[k][t] }
+
 func (e *Exec) IsMaybeOOO(series string, t int64) bool { return e.maybeOOO[series][t] }
 
 func clone3(m map[string]map[int64]map[string]bool) map[string]map[int64]map[string]bool {
